@@ -4,6 +4,7 @@ from ofxtools import Client, config, utils, models
 from ofxtools.Client import OFXClient, StmtRq, CcStmtRq, InvStmtRq, StmtEndRq, CcStmtEndRq, AUTH_PLACEHOLDER
 from ofxtools.Parser import OFXTree
 from sx import rt
+from sx.instrument import optimized_copy
 from harness.envstubs import FakeFS, FakePath, FakeResponse, FakeNet
 import ofxgen
 
@@ -71,16 +72,19 @@ def creds_of(body):
 rt.NATIVE_FUNCS.add(creds_of)
 
 
-def setup(ctx, log, persist_cookies, advertised, configured, fault=None):
+def setup(ctx, log, persist_cookies, advertised, configured, fault=None, advertised_inv=None, noassert=False):
+    """advertised_inv: another URL advertised for investment statements (default: the same for every message set);
+    noassert: the client module as `python -O` loads it"""
+    C = optimized_copy(Client) if noassert else Client
     fs = FakeFS(log)
     ctx.stub_attr(config, "DATADIR", FakePath(fs, ["data"]))
-    ctx.stub(Client, "open", fs.open)
+    ctx.stub(C, "open", fs.open)
     import os
     ctx.stub(os, "replace", fs.replace)
-    ctx.stub(Client, "OFXTree", FakeTree)
-    ctx.stub(Client, "BytesIO", fake_bytesio)
+    ctx.stub(C, "OFXTree", FakeTree)
+    ctx.stub(C, "BytesIO", fake_bytesio)
     msgsets = [mk_msgset("BANKMSGSET", advertised, True), mk_msgset("CREDITCARDMSGSET", advertised, False),
-               mk_msgset("INVSTMTMSGSET", advertised, None), mk_msgset("SIGNUPMSGSET", advertised, None)]
+               mk_msgset("INVSTMTMSGSET", advertised if advertised_inv is None else advertised_inv, None), mk_msgset("SIGNUPMSGSET", advertised, None)]
     profile = ProfilePayload(datetime.datetime(2021, 1, 1, tzinfo=UTC), msgsets)
 
     def responder(req):
@@ -98,7 +102,7 @@ def setup(ctx, log, persist_cookies, advertised, configured, fault=None):
     ctx.stub(urllib.request, "Request", net.Request)
     if fault in ("write", "replace"):
         fs.fail = fault
-    client = OFXClient(configured, userid="alice", org="O", fid="F", persist_cookies=persist_cookies, useragent="UA/1", bankid="B", brokerid="BR")
+    client = C.OFXClient(configured, userid="alice", org="O", fid="F", persist_cookies=persist_cookies, useragent="UA/1", bankid="B", brokerid="BR")
     return fs, client
 
 
@@ -193,6 +197,32 @@ def h_send_fault(ctx, kind):
             ctx.check("after a failed profile lookup the user's credentials still go only to the advertised URL", req["url"] == adv)
 
 
+def h_send_split(ctx, noassert):
+    """the profile advertises one URL for bank / credit-card statements and (possibly) another for investment statements: a
+    statement request is refused or goes to the URL advertised for its own kind - also when assert statements are compiled away"""
+    log = []
+    cfg = "https://" + ctx.str("cfg_host", 2, "a-z") + "/ofx"
+    adv = "https://" + ctx.str("adv_host", 2, "a-z") + "/ofx"
+    adv2 = "https://" + ctx.str("adv_inv_host", 2, "a-z") + "/ofx"
+    fs, client = setup(ctx, log, False, adv, cfg, None, adv2, noassert)
+    inv = ctx.bool("investment_statement")
+    C = optimized_copy(Client) if noassert else Client           # the request tuples are classes of that module
+    rq = C.InvStmtRq(acctid="3") if inv else C.StmtRq(acctid="1", accttype="CHECKING")
+    failed = False
+    try:
+        client.request_statements("s3cret", rq)
+    except (AssertionError, ValueError):
+        failed = True
+    ctx.observe("refused", failed)
+    for e in log:
+        if e[0] != "POST":
+            continue
+        req = e[1]
+        uid, pw, is_prof = creds_of(req["data"])
+        if not is_prof:
+            ctx.check("credentials go only to the URL advertised for that kind of request", req["url"] == (adv2 if inv else adv))
+
+
 def profile_date_of(body):
     """DTPROFUP of a serialized profile request - read natively by the real parser"""
     t = OFXTree()
@@ -254,7 +284,7 @@ def h_jars(ctx):
     ctx.check("the jar is an instance attribute, not shared class state", "cookiejar" in a.__dict__ and "cookiejar" not in vars(OFXClient))
 
 
-HARNESSES = dict(send_fault=h_send_fault, send=h_send, jars=h_jars, two_institutions=h_two_institutions)
+HARNESSES = dict(send_split=h_send_split, send_fault=h_send_fault, send=h_send, jars=h_jars, two_institutions=h_two_institutions)
 
 META = dict(
     bounds=dict(requests="statements (one or two of the five statement request kinds; the profile advertises closing statements for bank accounts only) / account-info / tax / profile, each with symbolic dryrun, skip_profile, persist_cookies, advertised URL equal to or different from the configured one, profile cached or not",
@@ -273,6 +303,8 @@ def instances(tier, seed):
         out.append(dict(name=f"send[{k}]", harness="send", fn=h_send, params=dict(kind=k), opts=dict(wall_s=300, max_paths=2000)))
     for k in ("statements", "accounts", "tax"):
         out.append(dict(name=f"send_fault[{k}]", harness="send_fault", fn=h_send_fault, params=dict(kind=k), opts=dict(wall_s=300, max_paths=2000)))
+    for na in (False, True):
+        out.append(dict(name=f"send_split[{'python -O' if na else 'default'}]", harness="send_split", fn=h_send_split, params=dict(noassert=na), opts=dict(wall_s=300, max_paths=2000)))
     out.append(dict(name="jars", harness="jars", fn=h_jars, params={}, opts=dict(wall_s=60)))
     out.append(dict(name="two_institutions", harness="two_institutions", fn=h_two_institutions, params={}, opts=dict(wall_s=300)))
     return out
